@@ -36,7 +36,7 @@ __BEGIN_DECLS
  * Encodings of the second type (type byte begins with 10)
  * -------------------------------------------------------
  * 2 bytes:
- * |10000000|qqqqqqqq|
+ * |10000001|qqqqqqqq|
  *      Unsigned numeric value less than or equal to:
  *        16446 + 2^8 - 1 = 16701
  * 3 bytes:
@@ -114,11 +114,11 @@ typedef enum varintSplitByte {
     VARINT_SPLIT_BYTE_2, /* 16446 + uint16_t; 10000010 */
     VARINT_SPLIT_BYTE_3, /* 16446 + uint24_t; 10000011 */
     VARINT_SPLIT_BYTE_4, /* 16446 + uint32_t; 10000100 */
-    VARINT_SPLIT_BYTE_5, /* 16446 + uint32_t; 10000101 */
-    VARINT_SPLIT_BYTE_6, /* 16446 + uint40_t; 10000110 */
-    VARINT_SPLIT_BYTE_7, /* 16446 + uint48_t; 10000111 */
-    VARINT_SPLIT_BYTE_8, /* 16446 + uint56_t; 10001000 */
-    VARINT_SPLIT_BYTE_9, /* 16446 + uint64_t; 10001001 */
+    VARINT_SPLIT_BYTE_5, /* 16446 + uint40_t; 10000101 */
+    VARINT_SPLIT_BYTE_6, /* 16446 + uint48_t; 10000110 */
+    VARINT_SPLIT_BYTE_7, /* 16446 + uint56_t; 10000111 */
+    VARINT_SPLIT_BYTE_8, /* 16446 + uint64_t; 10001000 */
+    VARINT_SPLIT_BYTE_9, /* unused (no 9-byte external); 10001001 */
     /* Ranges between 10001010 and 10111111 are available. */
     /* (including a full 5-bit range of: 10100000 to 10111111) */
     VARINT_SPLIT_BYTE_VAR_MAX_POSSIBLE__ = VARINT_SPLIT_MASK - 1, /* 10111111 */
